@@ -45,6 +45,11 @@ func (w *World) execCompose(st *Step) {
 	}
 
 	libPatches, err := toPatches(patches)
+	if ctor, _ := st.Args["ctor"].(bool); ctor {
+		// the same list built with the patch constructors (typed action values) instead of parsed from bytes
+		libPatches, err = toPatchesViaConstructors(patches)
+		w.T.Probe("compose_patches_built_with_constructors")
+	}
 	if err != nil {
 		w.T.Probe("compose_patch_unparsable")
 		return
@@ -266,4 +271,41 @@ func uniqueIDs(l []any) bool {
 		seen[id] = true
 	}
 	return true
+}
+
+// toPatchesViaConstructors builds library patches with patch.New*Patch (their action member is a typed
+// patch.Action, not a string as after parsing).
+func toPatchesViaConstructors(ps []any) ([]patch.Patch, error) {
+	var out []patch.Patch
+	for _, p := range ps {
+		m, _ := p.(map[string]any)
+		a, _ := m["action"].(string)
+		var lp patch.Patch
+		var err error
+		switch a {
+		case "ietf-json-patch":
+			lp, err = patch.NewJSONPatch(string(ref.JCS(anyList(listOf(m["patches"])))))
+		case "add-public-keys":
+			lp, err = patch.NewAddPublicKeysPatch(string(ref.JCS(m["publicKeys"])))
+		case "remove-public-keys":
+			lp, err = patch.NewRemovePublicKeysPatch(string(ref.JCS(m["ids"])))
+		case "add-services":
+			lp, err = patch.NewAddServiceEndpointsPatch(string(ref.JCS(m["services"])))
+		case "remove-services":
+			lp, err = patch.NewRemoveServiceEndpointsPatch(string(ref.JCS(m["ids"])))
+		case "add-also-known-as":
+			lp, err = patch.NewAddAlsoKnownAs(string(ref.JCS(m["uris"])))
+		case "remove-also-known-as":
+			lp, err = patch.NewRemoveAlsoKnownAs(string(ref.JCS(m["uris"])))
+		case "replace":
+			lp, err = patch.NewReplacePatch(string(ref.JCS(m["document"])))
+		default:
+			lp, err = patch.FromBytes(ref.JCS(p))
+		}
+		if err != nil {
+			return nil, err
+		}
+		out = append(out, lp)
+	}
+	return out, nil
 }
